@@ -100,7 +100,7 @@ def c04_oracle(b, live, pats):
     for (o, s, a) in rs:
         if s > 0:
             got = bytes(b.to_bytearray(o, s))
-            if got != pats[(o, s, a)]:
+            if (o, s, a) in pats and got != pats[(o, s, a)]:
                 return "bytes of live region [%d,%d) changed" % (o, o + s)
     return None
 
